@@ -41,7 +41,7 @@ BuildWith(w) ==
                                       mat |-> IF Has(w.ctes[i], "mat") THEN (IF w.ctes[i].mat THEN "yes" ELSE "no") ELSE "none", q |-> BuildStmt(w.ctes[i].q)]]]
 
 ApplySelect(s, c) ==
-  CASE c.op = "column" -> [s EXCEPT !.selects = Append(@, [e |-> [k |-> "col", n |-> c.c, q |-> Get(c, "q", <<>>)], a |-> "", w |-> NoneV])]
+  CASE c.op = "column" -> [s EXCEPT !.selects = Append(@, [e |-> [k |-> "col", n |-> c.n, q |-> Get(c, "q", <<>>)], a |-> "", w |-> NoneV])]
     [] c.op = "expr" -> [s EXCEPT !.selects = Append(@, [e |-> c.e, a |-> "", w |-> NoneV])]
     [] c.op = "expr_as" -> [s EXCEPT !.selects = Append(@, [e |-> c.e, a |-> c.a, w |-> NoneV])]
     [] c.op = "expr_window" -> [s EXCEPT !.selects = Append(@, [e |-> c.e, a |-> Get(c, "a", ""), w |-> [k |-> "def", w |-> c.w]])]
@@ -63,7 +63,7 @@ ApplySelect(s, c) ==
     [] c.op = "and_having" -> [s EXCEPT !.having = Apply(@, c.e)]
     [] c.op = "cond_having" -> [s EXCEPT !.having = Apply(@, c.c)]
     [] c.op = "group_by" -> [s EXCEPT !.groups = Append(@, c.e)]
-    [] c.op = "group_by_col" -> [s EXCEPT !.groups = Append(@, [k |-> "col", n |-> c.c, q |-> Get(c, "q", <<>>)])]
+    [] c.op = "group_by_col" -> [s EXCEPT !.groups = Append(@, [k |-> "col", n |-> c.n, q |-> Get(c, "q", <<>>)])]
     [] c.op = "order_by" -> [s EXCEPT !.orders = Append(@, OrderRec(c))]
     [] c.op = "limit" -> [s EXCEPT !.limit = [k |-> "n", n |-> c.n]]
     [] c.op = "offset" -> [s EXCEPT !.offset = [k |-> "n", n |-> c.n]]
@@ -95,7 +95,7 @@ ApplyInsert(s, c) ==
 ApplyUpdate(s, c) ==
   CASE c.op = "table" -> [s EXCEPT !.table = Some(c.t)]
     [] c.op = "from" -> [s EXCEPT !.from = Append(@, [k |-> "table", t |-> c.t])]
-    [] c.op = "value" -> [s EXCEPT !.values = Append(@, [c |-> c.c, e |-> c.e])]
+    [] c.op = "value" -> [s EXCEPT !.values = Append(@, [c |-> c.col, e |-> c.e])]
     [] c.op = "and_where" -> [s EXCEPT !.where = Apply(@, c.e)]
     [] c.op = "cond_where" -> [s EXCEPT !.where = Apply(@, c.c)]
     [] c.op = "order_by" -> [s EXCEPT !.orders = Append(@, OrderRec(c))]
